@@ -1,6 +1,7 @@
 package main
 
 import (
+	"unicode/utf8"
 	"fmt"
 	"math"
 	"sort"
@@ -9,9 +10,10 @@ import (
 
 // gStr prints a Go string (bytes) as a Coq string term.
 func gStr(s string) string {
-	printable := true
+	// a Coq string literal is its source bytes: valid UTF-8 without control characters goes in as it is
+	printable := utf8.ValidString(s)
 	for i := 0; i < len(s); i++ {
-		if s[i] < 0x20 || s[i] > 0x7e {
+		if s[i] < 0x20 || s[i] == 0x7f {
 			printable = false
 			break
 		}
